@@ -126,6 +126,9 @@ def apply(ex, fv, args, kwargs, st, node):
         if len(args) != 1:
             raise Unsupported("numeric type call arity")
         a = args[0]
+        if isinstance(a, ViewVal) and a.kind == "numstr":
+            yield st, Val(NUM, to_real(a.base))  # A1: T(str(x)) denotes the same number
+            return
         if is_numeric(a):
             yield st, Val(NUM, to_real(a))  # A1: conversion between numeric types keeps the value
             return
@@ -331,12 +334,49 @@ def ev_anyall(ex, which, gen, st):
             yield st1, boolv(z3.ForAll(bvars, z3.Implies(z3.And(*conds), body)))
 
 
+def _flatten_and(ifs):
+    out = []
+    for c in ifs:
+        if isinstance(c, ast.BoolOp) and isinstance(c.op, ast.And):
+            out += _flatten_and(c.values)
+        else:
+            out.append(c)
+    return out
+
+
 def ev_comprehension(ex, node, st):
     if len(node.generators) != 1:
         raise Unsupported("multi-generator comprehension")
     g = node.generators[0]
     for st1, it in ex.ev(g.iter, st):
         dom = iter_domain(ex, it, st1)
+        if isinstance(node, ast.DictComp) and dom[0] == "dict" and dom[2] == "items" and isinstance(dom[1].t.k, TOpt) \
+                and isinstance(g.target, ast.Tuple) and isinstance(g.target.elts[0], ast.Name) \
+                and any(isinstance(c, ast.Compare) and isinstance(c.left, ast.Name) and c.left.id == g.target.elts[0].id
+                        and len(c.ops) == 1 and isinstance(c.ops[0], ast.IsNot) and isinstance(c.comparators[0], ast.Constant)
+                        and c.comparators[0].value is None for c in _flatten_and(g.ifs)):
+            # {k: v for k, v in d.items() if k is not None and ...}: keys of the result are the non-None keys
+            d = dom[1]
+            inner = d.t.k.inner
+            s_ = inner.fresh("k")
+            kopt = Val(d.t.k, (z3.BoolVal(False), s_))
+            v = heapops.dict_read(st1.heap, d, kopt)
+            env = dict(st1.env)
+            bind_target(g.target, Val(TTuple([kopt.t, v.t]), (kopt, v)), env)
+            sc = ex.scope(st1, env)
+            keyv = spec.sv(node.key, sc)
+            if not (isinstance(keyv.t, TOpt) and z3.eq(z3.simplify(keyv.v[1].v), z3.simplify(s_.v))):
+                raise Unsupported("dict comprehension with a computed key")
+            conds = [heapops.dict_has(st1.heap, d, kopt)] + [spec.sv_bool(c, sc) for c in g.ifs]
+            val = coerce(spec.sv(node.value, sc), d.t.v)
+            rt = TDict(inner, d.t.v)
+            r = st1.new_ref("dict")
+            out = Val(rt, r)
+            dflt = d.t.v.default_terms()[0]
+            heapops.dict_set_contents(st1.heap, out, z3.Lambda([s_.v], z3.And(*conds)),
+                                      [z3.Lambda([s_.v], z3.If(z3.And(*conds), val.v, dflt))])
+            yield st1, out
+            continue
         if isinstance(node, ast.DictComp) and dom[0] == "dict" and dom[2] == "items":
             d = dom[1]
             k = d.t.k.fresh("k")
@@ -361,6 +401,24 @@ def ev_comprehension(ex, node, st):
             heapops.dict_set_contents(st1.heap, out, dom_arr, [val_arr])
             yield st1, out
             continue
+        if isinstance(node, (ast.ListComp, ast.GeneratorExp)) and dom[0] == "seq" and not g.ifs \
+                and isinstance(g.target, ast.Name) and isinstance(node.elt, ast.Attribute) \
+                and isinstance(node.elt.value, ast.Name) and node.elt.value.id == g.target.id \
+                and isinstance(dom[2], TRef):
+            # [x.field for x in seq]: element-wise field read as a sequence-algebra term
+            _, seq, et = dom
+            d, ft = decl.find_field(et.cls, node.elt.attr)
+            if d is not None and ft.simple:
+                arr = st1.heap.get(heapops.field_keys(d.short, node.elt.attr, ft)[0], ft.sort())
+                out_seq = ops.seq_map_field(arr, seq, ft.sort())
+                if isinstance(node, ast.ListComp):
+                    r = st1.new_ref("list")
+                    out = Val(TList(ft), r)
+                    heapops.list_write(st1.heap, out, out_seq)
+                    yield st1, out
+                else:
+                    yield st1, Val(TSeq(ft), out_seq)
+                continue
         if isinstance(node, (ast.ListComp, ast.GeneratorExp)) and dom[0] == "seq" and not g.ifs:
             _, seq, et = dom
             i = z3.Int(fresh_name("i"))
@@ -464,13 +522,39 @@ def builtin_call(ex, name, args, kwargs, st, node):
     if name in ("iter",):
         yield st, args[0]
         return
-    if name in ("list", "tuple", "set", "sorted", "reversed", "frozenset"):
+    if name == "reversed":
+        x = args[0]
+        if isinstance(x, Val) and isinstance(x.t, (TList, TSeq)):
+            seq = heapops.list_seq(st.heap, x) if isinstance(x.t, TList) else x.v
+            yield st, Val(TSeq(x.t.e), ops.seq_rev(seq))  # consumed once by its user (list(), for, comprehension)
+            return
+        if isinstance(x, Val) and isinstance(x.t, TTuple):
+            yield st, Val(TTuple(list(reversed(x.t.items))), tuple(reversed(x.v)))
+            return
+        raise Unsupported(f"reversed({getattr(x, 't', x)})")
+    if name in ("list", "tuple", "set", "sorted", "frozenset"):
         yield from builtin_collect(ex, name, args, kwargs, st, node)
         return
     if name in ("dict", "udict", "defaultdict"):
         yield from builtin_dict(ex, name, args, kwargs, st, node)
         return
+    if name == "str" and len(args) == 1 and isinstance(args[0], Val) and isinstance(args[0].t, (TUnion, TOpt)):
+        # str() of a value that is a number on this path
+        x = args[0]
+        if isinstance(x.t, TUnion):
+            idx = [i for i, a in enumerate(x.t.alts) if isinstance(a, (TNum, TInt)) or (isinstance(a, TOpt) and isinstance(a.inner, (TNum, TInt)))]
+            if len(idx) == 1:
+                for st1 in ex.guard_exc(st, x.v[0] == idx[0], "TypeError", node):
+                    yield from builtin_call(ex, "str", [x.v[1][idx[0]]], kwargs, st1, node)
+                return
+        elif isinstance(x.t.inner, (TNum, TInt)):
+            for st1 in ex.guard_exc(st, z3.Not(x.v[0]), "ArithmeticError", node):
+                yield st1, ViewVal("numstr", x.v[1])
+            return
     if name in ("str", "repr"):
+        if name == "str" and len(args) == 1 and is_numeric(args[0]):
+            yield st, ViewVal("numstr", args[0])  # decimal text of a number (only usable by a numeric type call)
+            return
         yield st, Val(STR, z3.String(fresh_name("str")))
         return
     if name == "type":
@@ -911,7 +995,9 @@ def bind_args(ex, c, fnode, args, kwargs, st):
             bound[a.vararg.arg] = t.make(t.default_terms())
     kw = dict(kwargs)
     if "**" in kw:
-        raise Unsupported("**kwargs call")
+        if a.kwarg is None:
+            raise Unsupported("**kwargs call into a function without **kwargs")
+        bound[a.kwarg.arg] = kw.pop("**")  # forwarded unchanged (opaque keyword bundle)
     for name, v in kw.items():
         if name in bound:
             raise Unsupported(f"duplicate argument {name}")
@@ -1034,14 +1120,20 @@ def call_contract(ex, key, args, kwargs, st, node, ctor_self=None):
         if c.expost:
             sc_x = spec.Scope(env, bad.heap, pre_heap, env, bad.alloc, pre_alloc, bad.ghost)
             for label, text in c.expost.items():
-                bad.assume(spec.sv_bool(text, sc_x))
+                if not isinstance(text, dict):
+                    bad.assume(spec.sv_bool(text, sc_x))
         if not bad.infeasible():
             ex.sink_raise(bad, ExcVal(ename, [], node), node)
     for ename in c.allow_exc:
         # "may raise": unconstrained exceptional exit (state after it is havoc'd per `modifies`)
         bad = st.copy()
         bad.trace.append(f"L{getattr(node, 'lineno', '?')}: {c.qual} may raise {ename}")
-        do_havoc(ex, c, c.modifies, env, bad, sc_pre)
+        do_havoc(ex, c, c.exc_modifies if c.exc_modifies is not None else c.modifies, env, bad, sc_pre)
+        xp = c.expost.get(ename) if isinstance(c.expost.get(ename), dict) else None
+        if xp:
+            sc_x = spec.Scope(env, bad.heap, pre_heap, env, bad.alloc, pre_alloc, bad.ghost)
+            for label, text in xp.items():
+                bad.assume(spec.sv_bool(text, sc_x))
         ex.sink_raise(bad, ExcVal(ename, [], node), node)
     for cond in conds.values():
         st.assume(z3.Not(cond))
@@ -1120,7 +1212,11 @@ def resolve_targets(texts, sc, ex=None):
     out = []
     for text in texts:
         node = spec.parse(text)
-        if isinstance(node, ast.Call) and isinstance(node.func, ast.Name) and node.func.id in ("contents", "fields"):
+        if isinstance(node, ast.Call) and isinstance(node.func, ast.Name) and node.func.id == "allof" \
+                and isinstance(node.args[0], ast.Attribute) and isinstance(node.args[0].value, ast.Name):
+            # allof(Class.field): that field of *every* object of the class may change (e.g. lazily cached hashes)
+            out.append(("fieldarray", node.args[0].value.id, node.args[0].attr))
+        elif isinstance(node, ast.Call) and isinstance(node.func, ast.Name) and node.func.id in ("contents", "fields"):
             base = spec.sv(node.args[0], sc)
             if isinstance(base.t, TOpt):
                 base = base.v[1]
